@@ -32,6 +32,8 @@ ENV.update({"GOFLAGS": "-mod=mod", "GOPROXY": "off", "GOSUMDB": "off", "GOTOOLCH
 PLAN = {
     "C05": dict(quick=20000, thorough=1500000, timeout=60),
     "C27": dict(quick=20000, thorough=1000000, timeout=60),
+    "C24": dict(quick=3000, thorough=200000, timeout=60),
+    "C19": dict(quick=160, thorough=6000, timeout=300),
 }
 DEFAULT_PLAN = dict(quick=200, thorough=5000, timeout=120)
 
